@@ -21,6 +21,11 @@ import (
 // F2Seed is a drbg-seed whose length table contains 0 (DESIGN §5 F2).
 const F2Seed = "7ef48387434acfdfad39600095080bec6908f8757e299b8d"
 
+// SingleValueSeed is a drbg-seed whose length table is the single value 93: in iat-mode=2 the
+// burst can then never be padded to end on a sampled length (93 − (1469 mod 93) = 19 ≤
+// headerLength forces the two-frame padding, which adds 1469+19 bytes, forever).
+const SingleValueSeed = "671f06a84128d4f8897d9f12d036333613cebb7a978e577e"
+
 var stateDir string
 
 // StateDir returns a per-process scratch directory for the factories' state files.
@@ -421,6 +426,9 @@ func RunO4Data(x *Ctx, model func(isServer bool, pkt []byte) string) {
 	if c.Gen == "iat2-known-seed" {
 		seed = F2Seed
 	}
+	if c.Gen == "iat2-single-value-seed" {
+		seed = SingleValueSeed
+	}
 	w, err := NewO4World(rng, c.Iat, seed)
 	if err != nil {
 		panic(err)
@@ -451,7 +459,7 @@ func RunO4Data(x *Ctx, model func(isServer bool, pkt []byte) string) {
 	desc := c.Gen
 	expectDelivered := -1
 	switch {
-	case c.Gen == "iat2-known-seed":
+	case c.Gen == "iat2-known-seed", c.Gen == "iat2-single-value-seed":
 		// paranoid-mode writes of the endpoint under test with the seed whose table contains 0
 		// (a client adopts the bridge's seed when it reads the server's first frames)
 		if !isServer {
